@@ -5,6 +5,7 @@ import (
 	"go/ast"
 	"go/printer"
 	"go/token"
+	"go/types"
 	"math/big"
 	"strings"
 
@@ -52,14 +53,77 @@ func c17Copy(c *Ctx, rel string) {
 	short1 := rel[strings.Index(rel, "slip10/")+7:]
 	K := func(s string) string { return s + "." + short1 }
 	pkgName := ana.Module + "/" + rel
+	// the curve type is the type of the package that implements crypto/elliptic.Curve; its exported methods are
+	// looked up by name (they are the interface), its unexported Jacobian helpers by their shape
+	// (number of *big.Int parameters and results), so neither the type nor the helpers need keep their names
+	var curveMethods []*ssa.Function
+	if sp := c.P.Pkg(rel); sp != nil {
+		for _, m := range sp.Members {
+			tn, ok := m.(*ssa.Type)
+			if !ok {
+				continue
+			}
+			have := map[string]*ssa.Function{}
+			for _, tt := range []types.Type{tn.Type(), types.NewPointer(tn.Type())} {
+				ms := c.P.SSA.MethodSets.MethodSet(tt)
+				for i := 0; i < ms.Len(); i++ {
+					if o, isF := ms.At(i).Obj().(*types.Func); isF && o.Pkg() == sp.Pkg {
+						if fn := c.P.SSA.FuncValue(o); fn != nil {
+							have[o.Name()] = fn
+						}
+					}
+				}
+			}
+			if have["Add"] != nil && have["Double"] != nil && have["ScalarMult"] != nil && have["ScalarBaseMult"] != nil && have["IsOnCurve"] != nil {
+				for _, fn := range have {
+					curveMethods = append(curveMethods, fn)
+				}
+			}
+		}
+	}
+	shape := map[string][2]int{"addJacobian": {6, 3}, "doubleJacobian": {3, 3}, "affineFromJacobian": {3, 2}}
 	meth := func(n string) *ssa.Function {
-		f := c.P.Func(rel, "koblitzCurve."+n)
-		if f == nil {
+		var found *ssa.Function
+		for _, fn := range curveMethods {
+			if fn.Name() == n {
+				found = fn
+			}
+		}
+		if found == nil {
+			if sh, ok := shape[n]; ok {
+				var cands []*ssa.Function
+				for _, fn := range curveMethods {
+					sg := fn.Signature
+					if token.IsExported(fn.Name()) || sg.Params().Len() != sh[0] || sg.Results().Len() != sh[1] {
+						continue
+					}
+					all := true
+					for i := 0; i < sg.Params().Len(); i++ {
+						if sg.Params().At(i).Type().String() != "*math/big.Int" {
+							all = false
+						}
+					}
+					if all {
+						cands = append(cands, fn)
+					}
+				}
+				if len(cands) == 1 {
+					found = cands[0]
+				}
+			}
+		}
+		if found == nil {
 			r.Undec(K("C17.anchor."+n), "", "method %s not found in %s", n, rel)
 			return nil
 		}
-		r.Fn(ana.ShortFunc(f))
-		return f
+		r.Fn(ana.ShortFunc(found))
+		return found
+	}
+	mname := func(n string) string {
+		if f := meth(n); f != nil {
+			return f.String()
+		}
+		return "<missing " + n + ">"
 	}
 
 	pureScan(c, K("C17.pure.no-package-state"), meth("Add"), meth("Double"), meth("ScalarMult"), meth("ScalarBaseMult"), meth("IsOnCurve"))
@@ -118,11 +182,11 @@ func c17Copy(c *Ctx, rel string) {
 				continue
 			}
 			t := b.Of(e.Results[0], e.Instr)
-			pat := "ext#0(call<(" + pkgName + ".koblitzCurve).affineFromJacobian>(p0, ext#0($J), ext#1($J), ext#2($J)))"
+			pat := "ext#0(call<" + mname("affineFromJacobian") + ">(p0, ext#0($J), ext#1($J), ext#2($J)))"
 			bd, ok := ana.Match(pat, t)
 			okJ := false
 			if ok {
-				jb, m := ana.Match("call<("+pkgName+".koblitzCurve).addJacobian>(p0, p1, p2, $z1, p3, p4, $z2)", bd["$J"])
+				jb, m := ana.Match("call<"+mname("addJacobian")+">(p0, p1, p2, $z1, p3, p4, $z2)", bd["$J"])
 				if m {
 					_, a := ana.Match("call<*>(p1, p2)", jb["$z1"])
 					_, bb := ana.Match("call<*>(p3, p4)", jb["$z2"])
@@ -140,10 +204,10 @@ func c17Copy(c *Ctx, rel string) {
 				continue
 			}
 			t := b.Of(e.Results[0], e.Instr)
-			bd, ok := ana.Match("ext#0(call<("+pkgName+".koblitzCurve).affineFromJacobian>(p0, ext#0($J), ext#1($J), ext#2($J)))", t)
+			bd, ok := ana.Match("ext#0(call<"+mname("affineFromJacobian")+">(p0, ext#0($J), ext#1($J), ext#2($J)))", t)
 			okJ := false
 			if ok {
-				jb, m := ana.Match("call<("+pkgName+".koblitzCurve).doubleJacobian>(p0, p1, p2, $z)", bd["$J"])
+				jb, m := ana.Match("call<"+mname("doubleJacobian")+">(p0, p1, p2, $z)", bd["$J"])
 				if m {
 					_, a := ana.Match("call<*>(p1, p2)", jb["$z"])
 					okJ = a && zHelper != nil && calleeOf(jb["$z"]) == zHelper
@@ -215,7 +279,7 @@ func c17Copy(c *Ctx, rel string) {
 				got1 = mustPass(f, e.Instr.Block(), z2z)
 			}
 			t0 := b.Of(e.Results[0], e.Instr)
-			if bd, ok := ana.Match("ext#0(call<("+pkgName+".koblitzCurve).doubleJacobian>(p0, $x, $y, $z))", t0); ok {
+			if bd, ok := ana.Match("ext#0(call<"+mname("doubleJacobian")+">(p0, $x, $y, $z))", t0); ok {
 				args := bd["$x"].String() + bd["$y"].String() + bd["$z"].String()
 				if args != "p1p2p3" && args != "p4p5p6" {
 					r.Viol(K("C17.exceptional-add.doubling"), c.ipos(e.Instr), "doubling is applied to %s, not to one of the operands", args)
@@ -290,13 +354,13 @@ func c17Copy(c *Ctx, rel string) {
 			}
 			nRet++
 			t := b.Of(e.Results[0], e.Instr)
-			_, ok := ana.Match("ext#0(call<("+pkgName+".koblitzCurve).affineFromJacobian>(p0, _, _, _))", t)
+			_, ok := ana.Match("ext#0(call<"+mname("affineFromJacobian")+">(p0, _, _, _))", t)
 			r.Check(ok, K("C17.scalar-loop.single-exit"), c.ipos(e.Instr), "the only way out of ScalarMult is the affine conversion of the accumulator")
 		}
 		r.Check(nRet == 1 && outer && inner, K("C17.scalar-loop.all-bits"), c.P.Pos(f.Pos()), "one return; outer loop ranges over the scalar parameter itself (no pre-reduction, no length special case), inner loop runs 8 times (returns=%d outer=%v inner=%v)", nRet, outer, inner)
 		// per-bit body: double always, add under top bit, shift left by one
-		dbl := ana.CallsTo(f, "("+pkgName+".koblitzCurve).doubleJacobian")
-		add := ana.CallsTo(f, "("+pkgName+".koblitzCurve).addJacobian")
+		dbl := ana.CallsTo(f, mname("doubleJacobian"))
+		add := ana.CallsTo(f, mname("addJacobian"))
 		okBody := len(dbl) == 1 && len(add) == 1
 		if okBody {
 			top := plainEdges(edgesMatching(b, "bin<>=>($byte, 128)")) // canonical form of every top-bit test of a byte (b&0x80 == 0x80, b&0x80 != 0, b>>7 != 0, b > 127)
@@ -344,7 +408,7 @@ func c17Copy(c *Ctx, rel string) {
 				continue
 			}
 			t := b.Of(e.Results[0], e.Instr)
-			_, ok := ana.Match("ext#0(call<("+pkgName+".koblitzCurve).ScalarMult>(p0, load(faddr<Gx>(field<CurveParams>(p0))), load(faddr<Gy>(field<CurveParams>(p0))), p1))", t)
+			_, ok := ana.Match("ext#0(call<"+mname("ScalarMult")+">(p0, load(faddr<Gx>(field<CurveParams>(p0))), load(faddr<Gy>(field<CurveParams>(p0))), p1))", t)
 			r.Check(ok, K("C17.scalar-loop.base-mult"), c.ipos(e.Instr), "ScalarBaseMult(k) = ScalarMult(Gx, Gy, k): %s", short(t.String(), 200))
 		}
 	}
